@@ -218,6 +218,14 @@ def build_pool(seed, tier):
                 calls.append({"op": "lineage", "sql": q, "read": None, "schema": "xyz", "column": al})
         calls.append({"op": "optimize" if rng.random() < 0.5 else "qualify", "sql": q, "read": None, "schema": "xyz"})
 
+    # a schema in which an unqualified table name is ambiguous: lenient lookups (annotation) and strict ones (qualification)
+    # of the same name on one reused MappingSchema
+    amb = []
+    for d in (None, "snowflake", "bigquery"):
+        for q in ("SELECT t.a FROM t AS t", "SELECT * FROM t", "SELECT a FROM t", "SELECT u.a, t.b FROM sales.u AS u JOIN sales.t AS t ON u.a = t.a", "SELECT * FROM staging.t"):
+            amb.append({"op": "annotate_only", "sql": q, "read": d, "schema": "amb"})
+            amb.append({"op": rng.choice(["qualify", "optimize"]), "sql": q, "read": d, "schema": "amb"})
+    calls.extend(amb)
     for d, q, col, sch in corpus.LINEAGE_CASES:
         calls.append({"op": "lineage", "sql": q, "read": d, "schema": sch, "column": col})
 
@@ -276,6 +284,8 @@ def build_pool(seed, tier):
         members += [{"op": "parse", "sql": q, "read": d, "error_level": lvl} for d, q in rng.sample(corpus.FAILING, 2)]
         groups.append(members)
         calls.extend(members)
+    for d in (None, "snowflake", "bigquery"):
+        groups.append([c for c in amb if c["read"] == d])
     groups.extend(subclass_groups)  # "define a dialect deriving from P, then generate for P" as focus groups of their own
     # Settings groups: ONE dialect class under several instance settings, the same mixed-case identifiers through every path that
     # consults the settings (safe quoting, qualification, star expansion, normalisation). State keyed by class, name or text alone
